@@ -242,6 +242,15 @@ def handle (sess : Sess) (rep : Report) (ln : Nat) (toks : List String) (obs : S
       let mine := mine ++ " stale=0"
       let obs := toldObs ++ " stale=" ++ arg o "stale"
       if mine == obs then (sess, rep) else ({ sess with model := none }, { rep.msg s!"DIVERGE line={ln} model={mine} impl={obs}" with diverged := rep.diverged + 1 })
+  | "closetimers" =>
+    -- Close() with recovery timers pending: no goroutine started by the object may outlive it (C16; known finding K9)
+    let sess := { sess with model := none, lastImpl := "", ready := [] }
+    let rep := { rep with episodes := rep.episodes + 1 }
+    let rep := rep.bump "gme.closed_with_timers_pending"
+    let n := (arg (args (obs.splitOn " ")) "after_close")
+    if n == "0" then (sess, rep)
+    else if n.toNat?.isSome then (sess, fail rep ln "C16" "close_stops_everything")
+    else (sess, rep.bump "gme.closetimers_inconclusive")
   | "liveorder" =>
     -- self-contained, like livemon: pools with real connectivity
     let sess := { sess with model := none, lastImpl := "", ready := [] }
